@@ -37,11 +37,9 @@ Channel::Channel(EventLoop* loop, int fd__)
 Channel::~Channel()
 {
   assert(!eventHandling_);
+  // implies !loop_->hasChannel(this); loop_ itself may be gone by now (the
+  // last reference to a connection can be dropped after its io thread ended)
   assert(!addedToLoop_);
-  if (loop_->isInLoopThread())
-  {
-    assert(!loop_->hasChannel(this));
-  }
 }
 
 void Channel::tie(const std::shared_ptr<void>& obj)
